@@ -61,8 +61,12 @@ def spectrum_of(c, E=None):
     return FrequencyDirectionSpectrum(ds)
 
 
-def da(spec, v):
-    return xarray.DataArray(np.array(v, dtype=float), dims=["time"], coords={"time": spec.dataset["time"]})
+def da(spec, v, whole=False):
+    a = np.array(v, dtype=float)
+    if whole and a.size and np.all(a == np.round(a)) and np.all(np.abs(a) < 2 ** 31):
+        # whole numbers (a wind direction of 270 degrees, a speed of 10 m/s) may arrive as integers
+        a = a.astype("int64")
+    return xarray.DataArray(a, dims=["time"], coords={"time": spec.dataset["time"]})
 
 
 _OBJECTS = {}
@@ -135,7 +139,7 @@ def run_case(c):
                     ("radian_frequency", "radian_direction", "frequency_step", "direction_step")}
         out["grid"] = guarded(grid)
     if U is not None:
-        Ud, Wd = da(spec, U), da(spec, wd)
+        Ud, Wd = da(spec, U, whole=True), da(spec, wd, whole=True)
     if z0 is not None:
         Zd = da(spec, z0)
         if "gen_rate" in want:
